@@ -94,9 +94,11 @@ Common == /\ l <= Len(Trace)
           /\ l' = l + 1
           /\ pstore' = store
 
+\* every evaluated search remembers which identifiers were deleted since its evaluation
 Write(S) == /\ store' = S
             /\ reopened' = FALSE
-            /\ UNCHANGED <<hdr, lastObs, hands>>
+            /\ hands' = [h \in DOMAIN hands |-> [hands[h] EXCEPT !.gone = @ \cup (DOMAIN store \ DOMAIN S)]]
+            /\ UNCHANGED <<hdr, lastObs>>
 
 Pass == UNCHANGED <<store, hdr, lastObs, reopened, hands>>
 
@@ -130,12 +132,10 @@ Obs == /\ e.ev = "obs" /\ Common
        /\ UNCHANGED <<store, hdr, hands>>
 
 Eval == /\ e.ev = "eval" /\ Common
-        /\ hands' = [h \in DOMAIN hands \cup {e.h} |-> IF h = e.h THEN [q |-> e.q, c |-> e.c, S |-> store] ELSE hands[h]]
+        /\ hands' = [h \in DOMAIN hands \cup {e.h} |-> IF h = e.h THEN [q |-> e.q, c |-> e.c, len |-> e.len, S |-> store, gone |-> {}] ELSE hands[h]]
         /\ UNCHANGED <<store, hdr, lastObs, reopened>>
 
-Collect == /\ e.ev = "collect" /\ Common
-           /\ hands' = [h \in DOMAIN hands \ {e.h} |-> hands[h]]
-           /\ UNCHANGED <<store, hdr, lastObs, reopened>>
+Collect == /\ e.ev = "collect" /\ Common /\ Pass
 
 Other == /\ e.ev \in {"end", "panic", "hang", "flush", "mutate", "note", "switch", "tick"} /\ Common /\ Pass
 
@@ -208,7 +208,8 @@ OrderOK(o, A) ==
 
 \* two sweeps agree (C04): same listing, same answers; ordered results compared by key sequence
 SameObs(a, b) ==
-  /\ AllMap(a) = AllMap(b) /\ a.count = b.count /\ a.control = b.control
+  /\ AllMap(a) = AllMap(b) /\ a.count = b.count
+  /\ ~hdr.cfg.async => a.control = b.control      \* with pending writes Control legitimately differs
   /\ Len(a.get) = Len(b.get)
   /\ \A i \in 1..Len(a.get) :
        /\ a.get[i].slot = b.get[i].slot /\ a.get[i].ex = b.get[i].ex
@@ -266,12 +267,89 @@ Conf_C04 ==
 Conf_C06 ==
   At =>
   /\ (E.ev = "obs" /\ E.after_fail) =>
-       /\ ReadsOK(E, store) /\ QueriesOK(E, store) /\ OrderOK(E, store) /\ E.control = "ok"
+       /\ ReadsOK(E, store) /\ QueriesOK(E, store) /\ OrderOK(E, store)
+       \* Control is judged only when nothing can be pending (an accepted async write is
+       \* legitimately indexed before its file exists)
+       /\ ~hdr.cfg.async => E.control = "ok"
   /\ (E.ev = "many" /\ E.csize = 0 /\ E.c # "ok") => E.n = 0
 
-\* C13 order, AssignIndex
+
+\* Limit / Reverse / One on an ordered result: an admissible prefix of the chosen order (ties in any order)
+LimitOK(res, M, S, f, n, rev) ==
+  /\ Len(res) = IF n >= 0 /\ n < Cardinality(M) THEN n ELSE Cardinality(M)
+  /\ NoDup(res)
+  /\ \A i \in 1..Len(res) : res[i] \in M
+  /\ \A i \in 1..Len(res) - 1 : IF rev THEN S[res[i]][f] <= S[res[i + 1]][f] ELSE S[res[i]][f] >= S[res[i + 1]][f]
+  /\ \A x \in M \ Seq2Set(res), i \in 1..Len(res) : IF rev THEN S[x][f] >= S[res[i]][f] ELSE S[x][f] <= S[res[i]][f]
+UnorderedLimitOK(res, M, n) ==
+  /\ Len(res) = IF n >= 0 /\ n < Cardinality(M) THEN n ELSE Cardinality(M)
+  /\ NoDup(res) /\ \A i \in 1..Len(res) : res[i] \in M
+
+CollectOK(c, H) ==
+  LET M == MatchesQ(H.S, H.q)
+      f == H.q[Len(H.q)][2]
+      res == [i \in 1..Len(c.items) |-> c.items[i][1]]
+  IN /\ \A i \in 1..Len(c.items) : c.items[i][1] \in DOMAIN H.S => c.items[i][2] = H.S[c.items[i][1]]
+     /\ IF c.what = "one"
+        THEN /\ (M = {}) => (c.c = "noobject" /\ Len(res) = 0)
+             /\ (M # {}) => /\ c.c = "ok"
+                           /\ IF OrderedQ(H.q) THEN LimitOK(res, M, H.S, f, 1, c.rev) ELSE UnorderedLimitOK(res, M, 1)
+        ELSE /\ c.c = "ok"
+             /\ IF OrderedQ(H.q) THEN LimitOK(res, M, H.S, f, c.lim, c.rev) ELSE UnorderedLimitOK(res, M, c.lim)
+
+\* C13 order, Reverse, Limit, One, AssignIndex
 Conf_C13 ==
-  At => ((E.ev = "obs" /\ E.all_c = "ok") => OrderOK(E, AllMap(E)))
+  At =>
+  /\ (E.ev = "obs" /\ E.all_c = "ok") => OrderOK(E, AllMap(E))
+  /\ (E.ev = "eval" /\ WellFormedQ(E.q)) => (E.c = "ok" /\ E.len = Cardinality(MatchesQ(store, E.q)))
+  /\ (E.ev = "collect" /\ E.h \in DOMAIN hands) =>
+        LET H == hands[E.h] IN
+        (H.S = store /\ H.gone = {} /\ WellFormedQ(H.q) /\ H.c = "ok") => CollectOK(E, H)
+
+\* C20 a search value is a snapshot of the matches at evaluation time
+Conf_C20 ==
+  (At /\ E.ev = "collect" /\ E.h \in DOMAIN hands /\ E.what = "collect" /\ E.lim < 0) =>
+     LET H   == hands[E.h]
+         M   == MatchesQ(H.S, H.q)
+         res == [i \in 1..Len(E.items) |-> E.items[i][1]]
+     IN (WellFormedQ(H.q) /\ H.c = "ok") =>
+          /\ (E.c = "ok") =>
+                /\ NoDup(res)
+                /\ Seq2Set(res) \subseteq M                 \* nothing that did not match at evaluation time
+                /\ (M \ H.gone) \subseteq Seq2Set(res)       \* every match still stored is there
+                /\ \A i \in 1..Len(E.items) : E.items[i][1] \in DOMAIN store => E.items[i][2] = store[E.items[i][1]]
+          /\ (E.c # "ok") => (M \cap H.gone # {})           \* an error only when a match was deleted meanwhile
+
+\* C07 batches: all or nothing per batch and per chunk
+IsObj(x)    == "o" \in DOMAIN x
+BIds(b)     == {b[i].slot : i \in {j \in 1..Len(b) : IsObj(b[j])}}
+FinalT(b, u) == Stored(b[CHOOSE i \in 1..Len(b) : IsObj(b[i]) /\ b[i].slot = u /\ \A j \in (i + 1)..Len(b) : ~(IsObj(b[j]) /\ b[j].slot = u)].o)
+MustRejectT(S, b) ==
+  \/ (\E i \in 1..Len(b) : ~IsObj(b[i])) /\ (\E i \in 1..Len(b) : IsObj(b[i]))
+  \/ \E i \in 1..Len(b) : IsObj(b[i]) /\ ~Valid(Stored(b[i].o))
+  \/ \E i \in 1..Len(b), f \in UniqueF, w \in DOMAIN S :
+        IsObj(b[i]) /\ w \notin BIds(b) /\ S[w][f] = Stored(b[i].o)[f]
+  \/ \E x, y \in BIds(b), f \in UniqueF : x # y /\ FinalT(b, x)[f] = FinalT(b, y)[f]
+MustAcceptT(S, b) ==
+  /\ \A i \in 1..Len(b) : IsObj(b[i]) /\ Valid(Stored(b[i].o))
+  /\ \A i \in 1..Len(b), f \in UniqueF, w \in DOMAIN S : w # b[i].slot => S[w][f] # Stored(b[i].o)[f]
+  /\ \A i, j \in 1..Len(b), f \in UniqueF : b[i].slot # b[j].slot => Stored(b[i].o)[f] # Stored(b[j].o)[f]
+Min(a, b) == IF a < b THEN a ELSE b
+Conf_C07 ==
+  At => (E.ev = "many" =>
+    LET b == E.batch  L == Len(E.batch)  n == E.n  cs == E.csize IN
+    IF cs = 0
+    THEN /\ (E.c = "ok") => n = L
+         /\ (E.c # "ok") => n = 0
+         /\ L > 0 => /\ (MustRejectT(pstore, b) => E.c # "ok")
+                      /\ (MustAcceptT(pstore, b) => E.c = "ok")
+    ELSE /\ (E.c = "ok") => n = L
+         /\ (E.c # "ok") => (n % cs = 0 /\ n < L)
+         \* every applied chunk was acceptable in the state left by the chunks before it
+         /\ \A k \in 0..((n - 1) \div cs) :
+               (n > 0) => ~MustRejectT(ApplyBatch(pstore, b, k * cs), SubSeq(b, k * cs + 1, Min((k + 1) * cs, n)))
+         \* the chunk at which the call stopped was not one that had to be accepted
+         /\ (E.c # "ok") => ~MustAcceptT(ApplyBatch(pstore, b, n), SubSeq(b, n + 1, Min(n + cs, L))))
 
 \* C15 hooks gate every insertion path
 HooksOK(hooks, i, o) ==
